@@ -67,3 +67,28 @@ func HarnessC13Line() {
 	vAssert(err != nil, "faulty-construct-is-reported")
 	vAssert(err.Line() == want, "reported-line-is-the-line-of-the-faulty-construct")
 }
+
+// c13SplitFaults: faulty constructs that span a line break; the offending token sits in the second part.
+var c13SplitFaults = [][2]string{
+	{"{{ 1 +", " undefinedName }}"},
+	{"{{ [1, 2", " 3] }}"},
+	{"{{ {a: 1", " b: 2} }}"},
+	{"{{ \"s\".len(1", " 2) }}"},
+	{"@if(true", " true)x@end"},
+	{"{{ x = 1;", " # }}"},
+	{"@each(v in [1]", " 2)x@end"},
+}
+
+// HarnessC13Split: the offending token of the faulty construct follows a symbolic line break inside the construct;
+// the reported line is the line on which that token ends.
+func HarnessC13Split() {
+	src := c13Token(vChoice("kind", 5), "t")
+	f := c13SplitFaults[vChoice("fault", len(c13SplitFaults))]
+	src += f[0] + string([]byte{symBreak("inner")})
+	want := 1 + countNewlines(src)
+	src += f[1]
+	_, err, _ := renderChecked(src, nil)
+	vCover("returned")
+	vAssert(err != nil, "faulty-construct-is-reported")
+	vAssert(err.Line() == want, "reported-line-is-the-line-of-the-offending-token")
+}
